@@ -68,4 +68,9 @@ def check(ctx, run):
     from rules import editing as _ed
     _ed.r06_13(ctx, run, rule='R11.5/R06.13')
     _ed.r11_6(ctx, run, rule='R11.6')
+    # an argument narrowed on one representation's branch only is a different argument there (R20.5)
+    from rules import intarith as _ia
+    _ia.param_cast_sites(ctx, run, 'R11.5/R20.5', only=lambda p_: p_.startswith('functions::'))
+    from rules import dispatch as _dispatch
+    _dispatch.sniff_table(ctx, run, 'R11.6/R10.10')
     return report.finish(run, level='other', explanation=EXPLANATION, assumptions=["is_jsonb is the library's own representation sniff; text beginning with a space is excluded by the property"])
